@@ -166,8 +166,8 @@ def r8(fx):
     for writer, rx_, tol in (('write_eps', r'^([0-9.]+) ([0-9.]+) ([0-9.]+) setrgbcolor$', 6e-7), ('write_pdf', r'([0-9.eE+-]+) ([0-9.eE+-]+) ([0-9.eE+-]+) RG ', 1e-12)):
         fn = fx.fn('writers', writer)
         bad = []
-        for c in range(256):
-            clr = (c, 255 - c, (c * 7 + 3) % 256)
+        # every value in every position, plus the integer tuples that look like float triples (all components 0 or 1)
+        for clr in [(c, 255 - c, (c * 7 + 3) % 256) for c in range(256)] + [(1, 1, 1), (0, 0, 1), (0, 1, 0), (1, 0, 0), (1, 0, 1), (0, 1, 1), (1, 1, 0), (2, 1, 0)]:
             if clr == (0, 0, 0):
                 continue
             txt, _ = _render(fx, it, writer, 1, clr, None, size=11)
@@ -387,7 +387,29 @@ def r2(fx):
             if (dark != 'black') != (f'\\color{{{dark}}}' in txt):
                 probs.append('colour command')
             yield ob(f'TeX scale={scale} dark={dark}', not probs, fx.fn('writers', 'write_tex'), got='; '.join(probs) or 'as required', want='as required')
-    # SVG options that move the size to the viewBox
+    # SVG options that move the size to the viewBox: the user-unit geometry (transform, runs, background) stays what it is
+    for opts, head in (({'omitsize': True}, 'omitsize'), ({'unit': 'mm'}, 'unit')):
+        for scale in (2, 2.5, 0.5):
+            W = n * scale
+            for light in (None, '#ff0000'):
+                txt, calls = _render(fx, it, 'write_svg', scale, '#000', light, **opts)
+                probs = []
+                if f'viewBox="0 0 {W} {W}"' not in txt:
+                    probs.append(f'viewBox {re.findall(r"viewBox=.[^>]*", txt)} != 0 0 {W} {W}')
+                tr = re.findall(r' transform="scale\(([^)]+)\)"', txt)
+                if tr != [str(scale)]:
+                    probs.append(f'scale transform {tr}, expected one scale({scale})')
+                paths = re.findall(r'<path([^>]*) d="([^"]+)"/>', txt)
+                stroke = [p_ for p_ in paths if 'stroke=' in p_[0]]
+                if len(stroke) != 1 or stroke[0][1] != f'M{b} {b}.5h3m2 1h1':
+                    probs.append(f'dark path {stroke}')
+                fill = [p_ for p_ in paths if 'fill=' in p_[0]]
+                if (light is None and fill) or (light is not None and (len(fill) != 1 or fill[0][1] != f'M0 0h{n}v{n}h-{n}z')):
+                    probs.append(f'background path {fill}')
+                if len(paths) > 1 and not re.search(r'<g transform="scale\([^)]+\)">', txt):
+                    probs.append('with several paths the transform must be on the enclosing group')
+                yield ob(f'SVG {head} scale={scale} light={light}: page in the viewBox, geometry unchanged', not probs, fx.fn('writers', 'write_svg'),
+                         got='; '.join(probs) or 'as required', want='as required')
     txt, _ = _render(fx, it, 'write_svg', 2, '#000', None, omitsize=True)
     yield ob('SVG omitsize: viewBox instead of width/height', 'viewBox="0 0 58 58"' in txt and ' width=' not in txt, fx.fn('writers', 'write_svg'),
              got=re.findall(r'<svg[^>]*>', txt), want='viewBox="0 0 58 58", no width/height')
